@@ -2392,7 +2392,8 @@ sexp sexp_write_one (sexp ctx, sexp obj, sexp out, sexp_sint_t bound) {
     case SEXP_COMPLEX:
       sexp_write(ctx, sexp_complex_real(obj), out);
       if (!sexp_pedantic_negativep(sexp_complex_imag(obj))
-          && !sexp_infp(sexp_complex_imag(obj)))
+          && !sexp_infp(sexp_complex_imag(obj))
+          && !sexp_nanp(sexp_complex_imag(obj)))
         sexp_write_char(ctx, '+', out);
       if (sexp_complex_imag(obj) == SEXP_NEG_ONE)
         sexp_write_char(ctx, '-', out);
